@@ -83,7 +83,7 @@ func faultCommands(proto string, k, k2 []byte) []Command {
 
 // faultScenario: warm both tiers, optionally lose the key in L1, plan the fault, issue the command
 // on connection A, then use the same keys from connection B.
-func faultScenario(id string, cfg StackCfg, proto string, cmd Command, f FaultSpec, loseL1 bool) Scenario {
+func faultScenario(id string, cfg StackCfg, proto string, cmd Command, f FaultSpec, loseL1 bool, onBatchPort ...bool) Scenario {
 	k, k2 := []byte("foo"), []byte("bar")
 	sc := Scenario{ID: id, Stack: cfg}
 	sc.Conns = []ConnCfg{{ID: "A", Port: "main", Proto: proto}, {ID: "B", Port: "main", Proto: "bin"}}
@@ -100,7 +100,11 @@ func faultScenario(id string, cfg StackCfg, proto string, cmd Command, f FaultSp
 		sc.Steps = append(sc.Steps, Step{Kind: "evict", Tier: "L1", Key: lk})
 	}
 	ff := f
-	sc.Steps = append(sc.Steps, Step{Kind: "fault", Fault: &ff}, feed("A", cmd))
+	faulted := "A"
+	if len(onBatchPort) > 0 && onBatchPort[0] && cfg.Orca == "l1l2" && proto == "bin" {
+		faulted = "C" // the command that meets the fault is issued on the batch port
+	}
+	sc.Steps = append(sc.Steps, Step{Kind: "fault", Fault: &ff}, feed(faulted, cmd))
 	// the same keys from another connection: every lock must be free again
 	sc.Steps = append(sc.Steps,
 		feed("B", Command{Kind: "get", Keys: []GetKey{{Key: k, Opaque: 61, Quiet: true}, {Key: k2, Opaque: 62}}}),
@@ -215,7 +219,7 @@ func init() {
 							if only := os.Getenv("VERIF_ONLY"); only != "" && only != tag {
 								continue
 							}
-							sc := faultScenario("C12-"+tag, cfg, proto, cmd, f, lose)
+							sc := faultScenario("C12-"+tag, cfg, proto, cmd, f, lose, (cmi+fi)%2 == 1)
 							t0 := time.Now()
 							out := RunScenarioO(d, sc, 2*time.Second, false)
 							if el := time.Since(t0); el > 500*time.Millisecond {
